@@ -4,8 +4,10 @@
   Domain: finite values, no overflow (a result beyond the largest finite value is kept as
   the rounded rational and printed as infinity); the sign of zero is not represented
   (both sides of the correspondence print zero as +0).  `logf` is supplied per op line as
-  a finite table (the values libm returns for the log-scale bounds); `expf` is not
-  computed: the model reports the argument of `expf` instead.
+  a finite table (the values libm returns for the log-scale bounds, see `logOfTable`);
+  `expf` is not computed: the model reports the argument of `expf` instead.
+  Proofs/AutoFloatLemmas.lean shows that this arithmetic satisfies the order laws
+  (`Rtosc.Auto.Laws`) the range/monotonicity theorems assume.
 -/
 import RtoscModel.Auto
 namespace Rtosc.Auto.IEEE
@@ -71,6 +73,14 @@ def ofBits32 (b : Nat) : Option Rat :=
       else ((2 ^ 23 + f : Nat) : Rat) * pow2 ((e : Int) - 150)
     some (if s = 1 then -v else v)
 
+/-- `logf` from a finite table of (argument, result) pairs: the largest tabulated result
+    whose argument is `<= x` (the smallest tabulated result below all arguments).  For an
+    argument in a table that is monotone — as libm's `logf` is — this is the tabulated
+    result itself; and it is monotone in `x` by construction. -/
+def logOfTable (tab : List (Rat × Rat)) (x : Rat) : Rat :=
+  let base := tab.foldl (fun a kv => if kv.2 ≤ a then kv.2 else a) 0
+  tab.foldl (fun a kv => if kv.1 ≤ x then (if a ≤ kv.2 then kv.2 else a) else a) base
+
 def ieee (logTab : List (Rat × Rat)) : Arith Rat :=
   { le := fun x y => decide (x ≤ y)
     zero := 0, one := 1, half := 1/2, two := 2, hundred := 100
@@ -85,7 +95,7 @@ def ieee (logTab : List (Rat × Rat)) : Arith Rat :=
     to32 := rnd32
     roundf := roundAway
     toInt := trunc
-    logf := fun x => (logTab.lookup x).getD 0
+    logf := logOfTable logTab
     expf := fun x => x }
 
 end Rtosc.Auto.IEEE
